@@ -28,6 +28,8 @@ type c03FaultOp struct {
 	run     func(s *drv.Server, b string, prep interface{}) *drv.Resp
 	// deletes: keys that must not be live when the request answered 2xx
 	deletes []string
+	// touches: the keys the request is addressed to (everything else must stay as it was)
+	touches []string
 }
 
 var c03FaultPreload = []string{"a", "d/x", "d/y", "e/f/g", "top/only"}
@@ -37,27 +39,40 @@ var c03FaultPreload = []string{"a", "d/x", "d/y", "e/f/g", "top/only"}
 var c03FaultUniverse = []string{"a", "d/x", "d/y", "e/f/g", "top/only", "n/m/k", "zflat", "c/c/copy", "mp/done", "f/form",
 	"d", "e", "e/f", "top", "n", "n/m", "c", "c/c", "mp", "f"}
 
+func faultBody(tag string) []byte { return []byte(strings.Repeat(tag+"-", 700)) }
+
+// faultExpect: what an acknowledged upload of each kind must read as (key, body, Content-Type,
+// x-amz-meta-w; "" = not judged).
+var faultExpect = map[string][4]string{
+	"put-new-deep":       {"n/m/k", string(faultBody("deep")), "text/x-new", "deep"},
+	"put-new-flat":       {"zflat", string(faultBody("flat")), "", "flat"},
+	"overwrite":          {"d/x", string(faultBody("over")), "text/x-over", ""},
+	"copy":               {"c/c/copy", "preloaded:a", "text/x-pre", "a"},
+	"multipart-complete": {"mp/done", string(faultBody("part1")) + string(faultBody("part2")), "text/x-mp", ""},
+	"form-post":          {"f/form", string(faultBody("form")), "", ""},
+}
+
 func c03FaultOps() []c03FaultOp {
-	body := func(tag string) []byte { return []byte(strings.Repeat(tag+"-", 700)) }
+	body := faultBody
 	return []c03FaultOp{
-		{name: "put-new-deep", run: func(s *drv.Server, b string, _ interface{}) *drv.Resp {
+		{name: "put-new-deep", touches: []string{"n/m/k"}, run: func(s *drv.Server, b string, _ interface{}) *drv.Resp {
 			return s.Put(b, "n/m/k", body("deep"), drv.H("Content-Type", "text/x-new", "x-amz-meta-w", "deep"))
 		}},
-		{name: "put-new-flat", run: func(s *drv.Server, b string, _ interface{}) *drv.Resp {
+		{name: "put-new-flat", touches: []string{"zflat"}, run: func(s *drv.Server, b string, _ interface{}) *drv.Resp {
 			return s.Put(b, "zflat", body("flat"), drv.H("x-amz-meta-w", "flat"))
 		}},
-		{name: "overwrite", run: func(s *drv.Server, b string, _ interface{}) *drv.Resp {
+		{name: "overwrite", touches: []string{"d/x"}, run: func(s *drv.Server, b string, _ interface{}) *drv.Resp {
 			return s.Put(b, "d/x", body("over"), drv.H("Content-Type", "text/x-over"))
 		}},
-		{name: "delete-leaf", deletes: []string{"d/y"}, run: func(s *drv.Server, b string, _ interface{}) *drv.Resp { return s.Delete(b, "d/y") }},
-		{name: "delete-last-below", deletes: []string{"e/f/g"}, run: func(s *drv.Server, b string, _ interface{}) *drv.Resp { return s.Delete(b, "e/f/g") }},
-		{name: "copy", run: func(s *drv.Server, b string, _ interface{}) *drv.Resp {
+		{name: "delete-leaf", deletes: []string{"d/y"}, touches: []string{"d/y"}, run: func(s *drv.Server, b string, _ interface{}) *drv.Resp { return s.Delete(b, "d/y") }},
+		{name: "delete-last-below", deletes: []string{"e/f/g"}, touches: []string{"e/f/g"}, run: func(s *drv.Server, b string, _ interface{}) *drv.Resp { return s.Delete(b, "e/f/g") }},
+		{name: "copy", touches: []string{"c/c/copy"}, run: func(s *drv.Server, b string, _ interface{}) *drv.Resp {
 			return s.Do(&drv.Req{Method: "PUT", Path: drv.ObjPath(b, "c/c/copy"), Header: drv.H("x-amz-copy-source", "/"+b+"/a")})
 		}},
-		{name: "multi-delete", deletes: nil, run: func(s *drv.Server, b string, _ interface{}) *drv.Resp {
+		{name: "multi-delete", deletes: nil, touches: []string{"a", "e/f/g", "top/only"}, run: func(s *drv.Server, b string, _ interface{}) *drv.Resp {
 			return s.Do(&drv.Req{Method: "POST", Path: "/" + b, Query: "delete", Body: deleteXML([]string{"a", "e/f/g", "top/only"}, false)})
 		}},
-		{name: "multipart-complete",
+		{name: "multipart-complete", touches: []string{"mp/done"},
 			prepare: func(s *drv.Server, b string) interface{} {
 				id, _ := mpInitiate(s, b, "mp/done", drv.H("Content-Type", "text/x-mp"))
 				var parts []model.CompletePart
@@ -72,7 +87,7 @@ func c03FaultOps() []c03FaultOp {
 				_, resp := mpComplete(s, b, "mp/done", pp[0].(string), pp[1].([]model.CompletePart))
 				return resp
 			}},
-		{name: "multipart-part",
+		{name: "multipart-part", touches: nil,
 			prepare: func(s *drv.Server, b string) interface{} {
 				id, _ := mpInitiate(s, b, "mp/done", nil)
 				return id
@@ -80,7 +95,7 @@ func c03FaultOps() []c03FaultOp {
 			run: func(s *drv.Server, b string, prep interface{}) *drv.Resp {
 				return mpUploadPart(s, b, "mp/done", prep.(string), 1, body("lonely"), nil)
 			}},
-		{name: "form-post", run: func(s *drv.Server, b string, _ interface{}) *drv.Resp {
+		{name: "form-post", touches: []string{"f/form"}, run: func(s *drv.Server, b string, _ interface{}) *drv.Resp {
 			fb, ct := formUpload("f/form", body("form"))
 			return s.Do(&drv.Req{Method: "POST", Path: "/" + b, Body: fb, Header: http.Header{"Content-Type": {ct}}})
 		}},
